@@ -65,8 +65,12 @@ def gen_seq(rng, n):
 
 
 def run_impl(broker, ops):
+    """`broker` may be a list of broker objects over the SAME queue (two processes' views of one SQLite file): operation i
+    goes through broker[i % len]"""
+    brokers = broker if isinstance(broker, list) else [broker]
     outs = []
-    for o in ops:
+    for i, o in enumerate(ops):
+        broker = brokers[i % len(brokers)]
         try:
             if o[0] == "route":
                 broker.route_invocation(f"m{o[1]}")
@@ -119,16 +123,22 @@ def sequential(ctx: Ctx, scratch: str):
     n_exec = 0
     for kind in ("mem", "sqlite"):
         app = world.make_app(kind, scratch)
-        for s, m in zip(seqs, model[kind]):
-            app.broker.purge()
-            got = run_impl(app.broker, s)
-            want = reference(s)
+        views = [[app.broker]]
+        if kind == "sqlite":
+            # the queue is shared state: a second broker object on the same database (another process) must see the same queue
+            app2 = world.make_app(kind, scratch, app_id=app.app_id)
+            views.append([app.broker, app2.broker])
+        for s, m in [(s, m) for s, m in zip(seqs, model[kind])] * len(views):
             n_exec += 1
+            view = views[(n_exec - 1) // len(seqs) % len(views)]
+            app.broker.purge()
+            got = run_impl(view if len(view) > 1 else view[0], s)
+            want = reference(s)
             if got != want:
                 k = next(i for i, (a, b) in enumerate(zip(got, want)) if a != b)
                 ctx.violation(f"seq:{kind}:{s[k][0]}",
-                              f"{kind} broker: operation #{k} {s[k]} returned {got[k]}, FIFO contract says {want[k]}",
-                              {"kind": "sequence", "backend": kind, "ops": s, "observed": got, "expected": want})
+                              f"{kind} broker ({len(view)} broker object(s) on one queue): operation #{k} {s[k]} returned {got[k]}, FIFO contract says {want[k]}",
+                              {"kind": "sequence", "backend": kind, "ops": s, "observed": got, "expected": want, "views": len(view)})
             elif got != m:
                 ctx.violation(f"seq:{kind}:model-mismatch", f"{kind} broker agrees with the reference but not with the Coq model",
                               {"kind": "sequence", "backend": kind, "ops": s, "observed": got, "model": m})
@@ -254,7 +264,10 @@ def replay(ctx: Ctx, path: str) -> int:
         if rp["kind"] == "sequence":
             app = world.make_app(rp["backend"], scratch)
             ops = [tuple(o) for o in rp["ops"]]
-            print("observed", run_impl(app.broker, ops))
+            view = [app.broker]
+            if rp.get("views", 1) > 1:
+                view.append(world.make_app(rp["backend"], scratch, app_id=app.app_id).broker)
+            print("observed", run_impl(view, ops))
             print("expected", reference(ops))
         else:
             _, out = run_conc(rp["backend"], scratch, rp["scenario"], rp["schedule"], rp.get("line_level", False))
